@@ -29,6 +29,111 @@ class Ctx:
 
 
 LEVELS = {"C14": "proof", "C12": "proof"}
+# rule sets whose patterns do not depend on debug-assertion / overflow-check instrumentation: re-run on release-shape MIR
+REL_SAFE = {"C14", "C12", "C13", "C11", "C10", "C02", "C08"}
+WITNESS = {"C12", "C14"}
+
+
+class RelCtx:
+    def __init__(self, base):
+        self.base = base
+        self.tier = base.tier
+        self.repo = base.repo
+        self.thorough = True
+
+    @property
+    def lib(self):
+        return self.base.facts("rel", "lib")
+
+    def facts(self, config="rel", which="lib"):
+        return self.base.facts(config, which)
+
+
+def thorough(ctx, rep, prop, mod):
+    """Extra depth of the thorough tier: release-shape MIR, the binary target, the witness crate, the checker self-test."""
+    import subprocess, glob
+    here = os.path.dirname(os.path.dirname(os.path.abspath(__file__)))
+    # 1. release-shape MIR (debug assertions and overflow checks off)
+    if prop in REL_SAFE:
+        sub = core.Report(prop, "thorough")
+        try:
+            mod.run(RelCtx(ctx), sub)
+        except Exception as e:
+            sub.add("CHECKER", "UNRECOGNISED-IDIOM:release-config", False, "", "%s: %s" % (type(e).__name__, e))
+        for o in sub.obs:
+            o.instance = o.instance + "@release"
+            rep.obs.append(o)
+        rep.stats["release_config_obligations"] = len(sub.obs)
+    # 2. the binary target: facts are extracted (the tree must type-check as a whole); its size is recorded
+    try:
+        B = ctx.facts("dev", "bin")
+        rep.stats["bin_instances"] = len(B.instances)
+    except Exception as e:
+        rep.note("binary target facts unavailable: %s" % e)
+    # 3. witness crate
+    if prop in WITNESS:
+        wdir = os.path.join(here, "witness")
+        try:
+            import shutil
+            shutil.copy(os.path.join(ctx.repo, "Cargo.lock"), os.path.join(wdir, "Cargo.lock"))
+        except Exception:
+            pass
+        env = dict(os.environ, CARGO_TARGET_DIR=os.path.join(wdir, "target"), CARGO_NET_OFFLINE="true")
+        man = open(os.path.join(wdir, "Cargo.toml")).read()
+        if ctx.repo != "/repo":
+            # witness against the tree under test
+            tmpw = os.path.join(wdir, "target", "alt")
+            os.makedirs(tmpw, exist_ok=True)
+            shutil.copytree(os.path.join(wdir, "src"), os.path.join(tmpw, "src"), dirs_exist_ok=True)
+            open(os.path.join(tmpw, "Cargo.toml"), "w").write(man.replace('path = "/repo"', 'path = "%s"' % ctx.repo))
+            wdir_run = tmpw
+        else:
+            wdir_run = wdir
+        p = subprocess.run(["cargo", "+nightly", "test", "--doc", "--offline"], cwd=wdir_run, env=env, stdout=subprocess.PIPE, stderr=subprocess.STDOUT, text=True)
+        lines = [l for l in p.stdout.splitlines() if l.startswith("test ")]
+        want = "FfiSignature" if prop == "C12" else ("SendSync", "SharedBorrows")
+        n = 0
+        for l in lines:
+            if any(w in l for w in ([want] if isinstance(want, str) else want)):
+                n += 1
+                key = l.split(" - ", 1)[-1].split(" ... ")[0]
+                key = __import__("re").sub(r"\(line \d+\)", "", key).strip()
+                rep.add("WIT", "witness:%s#%d" % (key, n), l.rstrip().endswith("ok"), "witness/src/lib.rs", l.strip())
+        rep.floor("WIT", "witness-doctests", n, 3)
+        if p.returncode != 0 and not lines:
+            rep.add("WIT", "witness-crate-builds", False, "", p.stdout[-600:])
+    # 4. checker self-test: every recorded mutant / seeded change of this property is still caught, negatives stay silent
+    if os.environ.get("PFA_NO_SELFTEST") != "1" and ctx.repo == "/repo":
+        dirs = []
+        for base in ("selftest/mutants", "seeded"):
+            for m in sorted(glob.glob(os.path.join(here, base, "*", "meta.json"))):
+                try:
+                    meta = json.load(open(m))
+                except Exception:
+                    continue
+                if prop in meta.get("check", [meta.get("property")]):
+                    dirs.append(os.path.dirname(m))
+        env = dict(os.environ, PFA_NO_SELFTEST="1")
+        from concurrent.futures import ThreadPoolExecutor
+
+        def one(d):
+            meta = json.load(open(os.path.join(d, "meta.json")))
+            p = subprocess.run([os.path.join(here, "bin", "mutant"), "run", os.path.join(d, "patch.diff"), prop], env=env, stdout=subprocess.PIPE, stderr=subprocess.STDOUT, text=True)
+            return d, meta, p.returncode, p.stdout
+        with ThreadPoolExecutor(6) as ex:
+            for d, meta, rc, out in ex.map(one, dirs):
+                name = os.path.basename(d)
+                if "patch does not apply" in out:
+                    rep.note("selftest %s skipped: patch no longer applies" % name)
+                    continue
+                if meta.get("expect_pass"):
+                    rep.add("SELF", "stays-silent:" + name, rc == 0, d, "negative control (behaviour-preserving edit) must not be reported; rc=%d" % rc)
+                elif meta.get("missed_by_design"):
+                    rep.add("SELF", "documented-miss:" + name, True, d, "outside the reach of this family (see DESIGN.md); rc=%d" % rc)
+                else:
+                    rep.add("SELF", "fires-on:" + name, rc == 1, d, "seeded change must be reported; rc=%d" % rc)
+        rep.stats["selftest_mutants"] = len(dirs)
+
 
 
 def main(argv=None):
@@ -59,6 +164,8 @@ def main(argv=None):
         return 2
     try:
         mod.run(ctx, rep)
+        if a.tier == "thorough":
+            thorough(ctx, rep, prop, mod)
     except facts.AnchorMissing as e:
         rep.missing("ANCHOR", str(e))
     except extract.ExtractError as e:
